@@ -18,7 +18,7 @@ import nlgen, c19gen
 
 CHAIN_RE = re.compile(r'(_(\d+|slk|equ)_)*\Z')
 TOKSTART_RE = re.compile(r'_[^_]+_')
-N_THEOREMS = 20
+N_THEOREMS = 25
 
 
 def hx(s):
@@ -373,6 +373,10 @@ def exec_case(ck, exe, drv, st, case):
         st.inc('links:no-dump')
     G = Graph(r['graph'] or [], link_lines)
     st.inc('export-stale=%d' % G.stale)
+    if G.stale:
+        # since repo commit 5f9dc1e an entry is extended only while it is the last registered one, i.e. before it is exported
+        out.append(('link-entry-changed-after-export', 'the link entries at presolve time differ from the cvt:writegraph export (an entry was extended in place after registration)',
+                    dict(replay, exported=[str(x) for x in G.exported if x not in G.links][:3], real=[str(x) for x in G.links if x not in G.exported][:3]), True))
     if G.bad:
         st.inc('graph:unparsable-lines', len(G.bad))
     for node, n in (('src_vars()', nv), ('src_cons()', ncon), ('src_objs()', len(eos)), ('dest_objs()', len(eos)),
@@ -423,8 +427,8 @@ def exec_case(ck, exe, drv, st, case):
     if not ans.startswith('names '):
         out.append(('model:nameprovider', 'Lean NameProvider model says %r but the real driver delivered names' % ans, dict(replay, op=np_line), False))
         return out + [(sg + ':unclassified', w, rp, True) for sg, w, rp in pending]
-    mm = re.match(r'names ub=(\d) V(.*) C(.*) O(.*)\Z', ans)
-    lv, lc, lo = ([unhx(h) for h in mm.group(k).split()] for k in (2, 3, 4))
+    mm = re.match(r'names V(.*) C(.*) O(.*)\Z', ans)
+    lv, lc, lo = ([unhx(h) for h in mm.group(k).split()] for k in (1, 2, 3))
     if (lv, lc, lo) != (evs, ecs, eos):
         out.append(('model:nameprovider-vs-reference', 'Lean NameProvider model %r differs from the documented reference %r' % ((lv, lc, lo), (evs, ecs, eos)), dict(replay, op=np_line), False))
     lines = ['reset']
@@ -471,6 +475,13 @@ def exec_case(ck, exe, drv, st, case):
     sfc = drv.ask('sf ' + ' '.join(hx(n) for n in srcs_c))
     if (sfv == '1' and sfc == '1') != (suffix_free(srcs_v) and suffix_free(srcs_c)):
         out.append(('model:suffixfree-differs', 'Lean suffixFreeB and the python reference disagree on %r / %r' % (srcs_v, srcs_c), replay, False))
+    st.inc('hyp:topo=%d' % (runinfo.get('topo') == '1'))
+    if runinfo.get('topo') == '1' and runinfo.get('wellfed') != '1':
+        out.append(('model:topo-implies-wellfed-contradicted', 'topoB holds but wellFed does not on this run (C19_wellFed_of_topological)', replay, False))
+    if runinfo.get('topo') != '1':
+        # since repo commit 5f9dc1e links run in registration order; a source that is neither an original
+        # item nor the target of an earlier entry means the converter registered links out of order
+        out.append(('link-source-not-fed-by-earlier-entry', 'a link entry reads a cell that is neither an original item nor the target of an earlier entry (topoB false)', replay, True))
     hyps = {'wellfed': runinfo.get('wellfed') == '1', 'sib': runinfo.get('sib') == '1',
             'plainsafe': runinfo.get('noclash') == '1' and runinfo.get('closed') == '1',
             'leaves': leaves, 'suffixfree': sfv == '1' and sfc == '1'}
@@ -537,12 +548,8 @@ def stage_nameprovider(ck, drv, st, rng, workdir, n):
     model = drv.many(['file ' + l for l in inp.split('\n') if l])
     for c, a, b in zip(cases, impl, model):
         st.inc('np:cases')
-        mub = ' ub=1' in b
-        if mub:
-            b_cmp = b.split(' ub=1')[0] + ' ub=1'
-        else:
-            b_cmp = b.rstrip()
-        a_cmp = a.rstrip()
+        b_cmp = b.rstrip()
+        a_cmp = a.replace(' ub=0', '', 1).rstrip()
         st.inc('np:' + ('error' if a == 'error' else 'ub' if ' ub=1' in a else 'names'))
         if a_cmp != b_cmp:
             ck.add_violation('model:nameprovider-bytes', 'NameProvider on file bytes %r: real %r, Lean model %r' % (c, a, b),
@@ -605,8 +612,8 @@ def stage_counterexamples(ck, exe, st, workdir):
                          {'stub': os.path.relpath(stub, VERIF), 'delivered': cons, 'how': 'recsolver %s -AMPL' % stub}, found_input=True)
     else:
         ck.add_violation('counterexample-stale:innocent-clash', 'the if-then-else witness no longer yields duplicate names: %r' % (cons,), {'delivered': cons}, found_input=False)
-    # 3. C19_counterexample_empty: corpus case (found by this check) where a CopyLink entry extended in place runs
-    #    before its source cell is named
+    # 3. regression input of the fixed finding C19-link-entry-extended-in-place (repo commit 5f9dc1e):
+    #    before the fix this corpus case delivered a constraint with an empty name
     cdir = os.path.join(VERIF, 'corpus', 'C19')
     meta = json.load(open(os.path.join(cdir, 'empty-name.json')))
     stub = os.path.join(workdir, 'cex_empty')
@@ -614,12 +621,10 @@ def stage_counterexamples(ck, exe, st, workdir):
         shutil.copy(os.path.join(cdir, 'empty-name' + ext), stub + ext)
     cons = delivered(recsolver.run(exe, stub, options=meta['options'], accept=meta['accept'], graph=False))
     st.inc('cex:runs')
-    ck.sample('counterexample replay (empty): corpus/C19/empty-name -> delivered constraints %r' % (cons,))
-    if '' in cons:
+    ck.sample('regression replay (fixed 5f9dc1e): corpus/C19/empty-name -> delivered constraints %r' % (cons,))
+    if '' in cons or not cons:
         ck.add_violation('empty-name:con:unnamed-link-source', 'corpus/C19/empty-name.nl (+.col/.row, %s): a constraint is delivered with an empty name' % ' '.join(meta['options']),
                          {'stub': 'corpus/C19/empty-name', 'options': meta['options'], 'accept': meta['accept'], 'delivered': cons}, found_input=True)
-    else:
-        ck.add_violation('counterexample-stale:empty-name', 'the corpus case no longer yields an empty name: %r' % (cons,), {'delivered': cons}, found_input=False)
 
 
 # ------------------------------------------------------------------ main
@@ -682,8 +687,8 @@ def run(ck):
     ck.level = 'proof'
     ck.notes.append('partial: uniqueness and non-emptiness hold only under decidable hypotheses evaluated per run; the full-strength property is refuted by three proved counterexamples replayed on the real driver (open known findings)')
     ck.assumptions += [
-        'uniqueness is proved under decidable hypotheses evaluated on every run: source names suffix-free, every link source named when used, sibling labels distinct, plain-child safety, delivered cells are leaves',
+        'uniqueness is proved under decidable hypotheses evaluated on every run: source names suffix-free, every link source named when used (implied by the structural condition topoB), sibling labels distinct, no equal non-plain label leaving plain-related cells, no delivered cell below another delivered cell',
         'the exported graph (cvt:writegraph) lists the link entries in the order PresolveNames executes them',
-        'names files: LF or CRLF line ends, non-empty lines (empty lines give empty names; empty first line reads before the buffer: known finding)']
+        'names files: LF or CRLF line ends, non-empty lines (empty lines give empty names)']
     ck.cov['trusted_base'] += ['harness/recsolver (recording ModelAPI), harness/h_names.cc (mmap wrapped to put a guard page before the file)',
                                'python reference for documented names (checks/c19.py expected_sources)']
